@@ -48,12 +48,23 @@ def check(case):
             path = sc.path("doc." + EXT[rd])
             with open(path, "w", encoding="utf-8", newline="") as fh:
                 fh.write(case["text"])
-        fm = lib(lambda: getattr(T, READERS[rd])(path).transform())
+        reader = lib(lambda: getattr(T, READERS[rd])(path))
+        fm = lib(lambda: reader.transform())
+        fm_again = lib(lambda: reader.transform()) if not isinstance(fm, Raised) else None
     if isinstance(fm, Raised):
         return out
     obs = build.observe(fm)
     out += rt.wellformed(obs, pid)
+    # the same reader object asked again must return a proper tree again (and the same model)
+    # (a reader that refuses a second call is not judged here - C02 speaks about the models that are returned)
+    if fm_again is not None and not isinstance(fm_again, Raised):
+        obs2 = build.observe(fm_again)
+        out += [(k.replace(".wf.", ".wf-second-transform."), d) for k, d in rt.wellformed(obs2, pid)]
+        out += [(k.replace(".wf.", ".wf-first-model-after-second-transform."), d)
+                for k, d in rt.wellformed(build.observe(fm), pid)]
     exprs = rt.usable_constraints(fm, pid, out)
+    if not obs["problems"] and len(obs["features"]) <= 400:
+        operations_traverse(fm, pid, out)
     if case.get("model") is not None and None not in exprs:
         want = sorted(sorted(logic.refs(c["ast"])) for c in case["model"]["ctcs"] if not logic.is_aggregation(c["ast"]))
         got = []
@@ -66,6 +77,24 @@ def check(case):
         if sorted(got) != want and len(fm.ctcs) == len(case["model"]["ctcs"]):
             out.append((f"{pid}.ctc.get_features-vs-document", f"expected {want[:4]}, got {sorted(got)[:4]}"))
     return out
+
+
+def operations_traverse(fm, pid, out):
+    """'...every writer and operation can traverse it': the analysis operations and the constraint utilities
+    must work on whatever a reader returns (they only need the tree and the constraint form)."""
+    import flamapy.metamodels.fm_metamodel.operations as ops
+    from flamapy.metamodels.fm_metamodel.models.feature_model import split_constraint
+    for name in ("FMAtomicSets", "FMAverageBranchingFactor", "FMCoreFeatures", "FMCountLeafs",
+                 "FMEstimatedConfigurationsNumber", "FMLeafFeatures", "FMMaxDepthTree", "FMMetrics", "FMVariationPoints"):
+        got = lib(lambda name=name: getattr(ops, name)().execute(fm).get_result())
+        if isinstance(got, Raised):
+            out.append((f"{pid}.operation-cannot-traverse:{name}:{got.label}", got.text))
+    for c in fm.ctcs:
+        if c.is_logical_constraint() if not isinstance(lib(c.is_logical_constraint), Raised) else False:
+            got = lib(split_constraint, c)
+            if isinstance(got, Raised):
+                out.append((f"{pid}.split_constraint-cannot-traverse:{got.label}", got.text))
+                break
 
 
 def writer_cases(rd, min_feats=1):
